@@ -1,2 +1,5 @@
 import DeapModel.Core.Py
+import DeapModel.Core.Scalar
 import DeapModel.Core.Fitness
+import DeapModel.RealInst
+import DeapModel.Props.C01
